@@ -17,6 +17,7 @@ code under test and are not used):
   volume    packing factor by name (any case) / number / default, and lattice
             parameters in every documented call form.
 """
+from .. import subtable
 from fractions import Fraction
 from math import pi
 
@@ -74,7 +75,7 @@ def env():
     if not _STATE:
         import periodictable
         from periodictable import core, mass, density, covalent_radius
-        T = core.PeriodicTable("c12-private")
+        T = subtable.new("c12-private")
         mass.init(T)
         density.init(T)
         covalent_radius.init(T)
